@@ -351,8 +351,12 @@ class PyExplorer(llsym.Executor):
                 if m is None:
                     raise llsym.PathEnd()
                 c = self.node.cval = m.eval(t, model_completion=True).as_long()
+            node_before = self.node
             if self.decide(t == c):
                 return c
+            if self.node is node_before:
+                node_before.cval = None
+                self._model = None
             seen += 1
             if seen > limit:
                 raise llsym.UnwindBound('more than %d values for %s' % (limit, what))
